@@ -68,6 +68,7 @@ func genC07(r *Rng, tier string) *World {
 		c := DrawGenCfg(r, "parse")
 		c.PPT = Pick(r, []float64{0, 0.2, 0.4})
 		c.PPTErr = Pick(r, []float64{0, 0.3})
+		c.Coercers = r.P(0.4)
 		c.Opts = r.P(0.3)
 		cfgs = append(cfgs, c)
 		w.Schemas = append(w.Schemas, GenNode(r, &c, 0, true))
